@@ -15,6 +15,7 @@ from typing import Any, Dict, List, Optional, Tuple
 import numpy as np
 
 from mc import choices, qsim, simctl, world
+from mc.report import guard_harness as _guard
 from mc.report import add_sample, add_violation, count, new_part
 
 LEVEL = "exploration"
@@ -93,6 +94,7 @@ def shard_gates(shard):
                 conn.flush()
                 v = state_of(ctrl, conn, [c1, c2, t])
             except Exception as exc:
+                _guard(exc)
                 add_violation(part, f"toffoli-raises/{tag}", f"{type(exc).__name__}: {str(exc).splitlines()[0][:160] if str(exc) else ''}",
                               {"function": "toffoli_gate", "roles": list(roles), "input": b, "nv": nv})
                 ok = False
@@ -154,6 +156,7 @@ def shard_state_prep(shard):
                     conn.flush()
                     v = state_of(ctrl, conn, [q])
                 except Exception as exc:
+                    _guard(exc)
                     add_violation(part, f"set_qubit_state-raises/{tag}", f"{type(exc).__name__}: {str(exc).splitlines()[0][:160] if str(exc) else ''}", case)
                     continue
                 want = np.array([math.cos(theta / 2), np.exp(1j * phi) * math.sin(theta / 2)], dtype=complex)
@@ -242,6 +245,7 @@ def check_parity(string: str, negative: bool, kind, spec, nv: bool, part) -> Non
             after_alloc = sum(1 for p in ctrl.executor._qubit_unit_modules[conn.app_id] if p is not None)
             nmeas = len(ctrl.executor.meas_trace)
         except Exception as exc:
+            _guard(exc)
             return ("raised", f"{type(exc).__name__}: {str(exc).splitlines()[0][:160] if str(exc) else ''}")
         return ("ok", psi, val, v, before_alloc, after_alloc, nmeas)
 
